@@ -8,8 +8,8 @@ Inductive c20case :=
 | CTrim (s out : string)
 (* the harness' independent reader of interval expressions agrees with read_interval *)
 | CRead (u e : string) (rd : option (bool * list Z))
-(* JSON(v).get_sql() = out; json.dumps text (when comparable); independent decoding of the SQL literal *)
-| CJson (v : jvalue) (out : string) (dumps : option string) (dec : option string)
+(* JSON(v) rendered under the keyword context c (directly or inside a statement) = out; json.dumps text (when comparable); independent decoding of the SQL literal *)
+| CJson (c : qctx) (v : jvalue) (out : string) (dumps : option string) (dec : option string)
 (* Tuple/Array term rendered under dialect d = out; independent tokenisation of out *)
 | CSeq (d : option dialect) (t : sterm) (out : string) (toks : option (list string)).
 
@@ -21,8 +21,8 @@ Definition check_case (c : c20case) : bool :=
   | CInterval vals q w dc dr out => String.eqb (render_interval dr (mk_interval vals q w dc)) out
   | CTrim s out => String.eqb (trim s) out
   | CRead u e rd => option_eqb pair_eqb (read_interval u e) rd
-  | CJson v out dumps dec =>
-      String.eqb (json_sql (Some "'") v) out
+  | CJson c v out dumps dec =>
+      String.eqb (json_sql_ctx c v) out
       && match dumps with Some t => String.eqb (json_spec v) t | None => true end
       && option_eqb String.eqb (sql_decode out) dec
   | CSeq d t out toks =>
@@ -38,7 +38,7 @@ Definition show_case (c : c20case) : string :=
                    | Some (n, vs) => (if n then "-" else "+") ++ join "," (map Z_to_string vs)
                    | None => "None"
                    end
-  | CJson v _ _ _ => json_sql (Some "'") v ++ " | spec: " ++ json_spec v
+  | CJson c v _ _ _ => json_sql_ctx c v ++ " | spec: " ++ json_spec v
   | CSeq d t out _ => render_seq d t ++ " | elements: " ++
                       match elements out with Some l => join " ; " l | None => "None" end
   end.
